@@ -20,6 +20,13 @@
 //                                                                                    -> V <visits> A - C <contents>
 //   enbe / rvbe   (e.begin() != e.end()) before a loop over e, after it, and with begin()/end() stored in variables
 //                 first; number of visits of the loop                                -> BE <3 bits> <count>
+// case:  mc <scenario> <kind> <mode> <elemsA> <elemsB> [<elemsC>]   — SEVERAL containers of one kind, element type and length
+//   alive at once.  kind carr | arr | vec | list | fv;  mode l adaptors over lvalue containers, o adaptors owning copies
+//   n<o><i><w>   for (x : <o>(A)) { for (y : <i>(B)) ..; [write through x] }   o, i in {r reverse, e enumerate}; w in {w, -}
+//                                                  -> N2 <x>=<inner visits>|<x>=<inner visits>... C <A afterwards> <B afterwards>
+//   n3           reverse(A) { reverse(B) { reverse(C) } }     -> N3 x=y{z,z}+y{z,z}|... C <A> <B> <C>
+//   s<p><q><k><w> auto ra = <p>(A); auto rb = <q>(B); then iterate ra, rb in the order k (1: ra first, 2: rb first); the loop run
+//                first writes through its elements when w = w          -> S2 <visits of ra> <visits of rb> C <A afterwards> <B afterwards>
 // The temporaries of mode r are created inside the range-for statement itself, so that a dangling adaptor is an
 // AddressSanitizer report (observation CRASH(...)).
 #include "common.hpp"
@@ -278,6 +285,134 @@ template <class Mk> std::string run_reuse(const std::string& sc, char mode, Mk m
     return "BADCASE";
 }
 
+// ---- several containers of the same kind / element type / length alive at once ----
+template <class C> struct Hold
+{
+    C c;
+    C& get() { return c; }
+    C copy() const { return c; }
+};
+template <std::size_t N> struct HoldC
+{
+    int c[N];
+    int (&get())[N] { return c; }
+};
+template <bool OWNED, class H> auto make_r(H& h)
+{
+    if constexpr (OWNED) return nl::reverse(h.copy());
+    else return nl::reverse(h.get());
+}
+template <bool OWNED, class H> auto make_e(H& h)
+{
+    if constexpr (OWNED) return nl::enumerate(h.copy());
+    else return nl::enumerate(h.get());
+}
+template <bool OWNED, class Ad, class Body> bool each_r(Ad&& ad, std::size_t n, Body body)
+{
+    std::size_t k = 0;
+    for (auto& x : ad)
+    {
+        if (k++ > n + 2) return false;
+        if (!body(std::to_string(val(x)), [&] { if constexpr (!OWNED) slot(x) = fr(val(x)); })) return false;
+    }
+    return true;
+}
+template <bool OWNED, class Ad, class Body> bool each_e(Ad&& ad, std::size_t n, Body body)
+{
+    std::size_t k = 0;
+    for (auto x : ad)
+    {
+        if (k++ > n + 2) return false;
+        auto&& ref = x.value();
+        if (!body(std::to_string(x.index()) + ":" + std::to_string(val(ref)), [&] { if constexpr (!OWNED) slot(ref) = fe(x.index(), val(ref)); })) return false;
+    }
+    return true;
+}
+template <bool OWNED, class H, class Body> bool over(char ad, H& h, std::size_t n, Body body)
+{
+    if (ad == 'r') return each_r<OWNED>(make_r<OWNED>(h), n, body);
+    return each_e<OWNED>(make_e<OWNED>(h), n, body);
+}
+static void join(std::string& acc, const char* sep, const std::string& item) { if (!acc.empty()) acc += sep; acc += item; }
+static std::string dot(const std::string& s) { return s.empty() ? std::string(".") : s; }
+
+template <bool OWNED, class H> std::string run_multi(const std::string& sc, H& ha, H& hb, H* hc, std::size_t n)
+{
+    auto isad = [](char c) { return c == 'r' || c == 'e'; };
+    if (sc.size() == 4 && sc[0] == 'n' && isad(sc[1]) && isad(sc[2]) && (sc[3] == 'w' || sc[3] == '-') && !hc)
+    {
+        if (OWNED && sc[3] == 'w') return "BADCASE";
+        std::string out;
+        bool ok = over<OWNED>(sc[1], ha, n, [&](const std::string& xv, auto write) {
+            std::string in;
+            if (!over<OWNED>(sc[2], hb, n, [&](const std::string& yv, auto) { join(in, ",", yv); return true; })) return false;
+            if (sc[3] == 'w') write();
+            join(out, "|", xv + "=" + dot(in));
+            return true;
+        });
+        if (!ok) return "RUNAWAY";
+        return "N2 " + dot(out) + " C " + contents(ha.get()) + " " + contents(hb.get());
+    }
+    if (sc == "n3" && hc)
+    {
+        std::string out;
+        bool ok = over<OWNED>('r', ha, n, [&](const std::string& xv, auto) {
+            std::string mid;
+            if (!over<OWNED>('r', hb, n, [&](const std::string& yv, auto) {
+                    std::string in;
+                    if (!over<OWNED>('r', *hc, n, [&](const std::string& zv, auto) { join(in, ",", zv); return true; })) return false;
+                    join(mid, "+", yv + "{" + in + "}");
+                    return true;
+                }))
+                return false;
+            join(out, "|", xv + "=" + dot(mid));
+            return true;
+        });
+        if (!ok) return "RUNAWAY";
+        return "N3 " + dot(out) + " C " + contents(ha.get()) + " " + contents(hb.get()) + " " + contents(hc->get());
+    }
+    if (sc.size() == 5 && sc[0] == 's' && isad(sc[1]) && isad(sc[2]) && (sc[3] == '1' || sc[3] == '2') && (sc[4] == 'w' || sc[4] == '-') && !hc)
+    {
+        if (OWNED && sc[4] == 'w') return "BADCASE";
+        std::string va, vb;
+        bool ok = true;
+        auto with = [&](char ad, H& h, auto k) {
+            if (ad == 'r') { auto a = make_r<OWNED>(h); k(a, std::true_type{}); }
+            else { auto a = make_e<OWNED>(h); k(a, std::false_type{}); }
+        };
+        auto run = [&](auto& ad, auto isr, std::string& acc, bool wr) {
+            auto body = [&](const std::string& v, auto write) { if (wr) write(); join(acc, ",", v); return true; };
+            if constexpr (decltype(isr)::value) ok = each_r<OWNED>(ad, n, body) && ok;
+            else ok = each_e<OWNED>(ad, n, body) && ok;
+        };
+        with(sc[1], ha, [&](auto& ra, auto isr1) {
+            with(sc[2], hb, [&](auto& rb, auto isr2) {
+                bool w = sc[4] == 'w';
+                if (sc[3] == '1') { run(ra, isr1, va, w); run(rb, isr2, vb, false); }
+                else { run(rb, isr2, vb, w); run(ra, isr1, va, false); }
+            });
+        });
+        if (!ok) return "RUNAWAY";
+        return "S2 " + dot(va) + " " + dot(vb) + " C " + contents(ha.get()) + " " + contents(hb.get());
+    }
+    return "BADCASE";
+}
+template <std::size_t N = 0, class F> std::string by_size(std::size_t n, F f)
+{
+    if constexpr (N > 6) return "BADCASE";
+    else
+    {
+        if (n == N) return f(std::integral_constant<std::size_t, N>{});
+        return by_size<N + 1>(n, f);
+    }
+}
+template <class H> std::string run_multi_mode(const std::string& sc, char mode, H& ha, H& hb, H* hc, std::size_t n)
+{
+    if (mode == 'l') return run_multi<false>(sc, ha, hb, hc, n);
+    if (mode == 'o') return run_multi<true>(sc, ha, hb, hc, n);
+    return "BADCASE";
+}
+
 constexpr std::size_t MAXN = 6;
 
 template <std::size_t N> std::string run_arr(bool en, char mode, const Elems& e)
@@ -363,6 +498,52 @@ template <std::size_t N> struct CArrF { static std::string run(bool en, char mod
 
 static std::string run_case(const std::vector<std::string>& w)
 {
+    if ((w.size() == 6 || w.size() == 7) && w[0] == "mc" && w[3].size() == 1)
+    {
+        std::vector<Elems> es;
+        for (std::size_t k = 4; k < w.size(); k++)
+        {
+            Elems e;
+            if (w[k] != ".")
+                for (auto& t : vh::split_on(w[k], ',')) e.push_back(std::atoi(t.c_str()));
+            es.push_back(e);
+        }
+        std::size_t n = es[0].size();
+        for (auto& e : es) if (e.size() != n) return "BADCASE";
+        const bool three = es.size() == 3;
+        const std::string& sc = w[1];
+        const std::string& k = w[2];
+        char mode = w[3][0];
+        auto go = [&](auto mk) {
+            using H = decltype(mk(es[0]));
+            H ha = mk(es[0]), hb = mk(es[1]);
+            if (three) { H hc = mk(es[2]); return run_multi_mode(sc, mode, ha, hb, &hc, n); }
+            return run_multi_mode(sc, mode, ha, hb, static_cast<H*>(nullptr), n);
+        };
+        if (k == "vec") return go([](const Elems& e) { return Hold<std::vector<int>>{ std::vector<int>(e.begin(), e.end()) }; });
+        if (k == "list") return go([](const Elems& e) { return Hold<std::list<int>>{ std::list<int>(e.begin(), e.end()) }; });
+        if (k == "fv")
+            return go([](const Elems& e) { nl::fixed_vector<int> v(e.size() + 2); for (int x : e) v.push_back(x); return Hold<nl::fixed_vector<int>>{ std::move(v) }; });
+        if (k == "arr")
+            return by_size(n, [&](auto N) {
+                constexpr std::size_t K = decltype(N)::value;
+                return go([](const Elems& e) { Hold<std::array<int, K>> h{}; for (std::size_t i = 0; i < K; i++) h.c[i] = e[i]; return h; });
+            });
+        if (k == "carr")
+            return by_size(n, [&](auto N) -> std::string {
+                constexpr std::size_t K = decltype(N)::value;
+                if constexpr (K == 0) return "BADCASE";
+                else
+                {
+                    if (mode != 'l') return "BADCASE";
+                    auto mk = [](const Elems& e) { HoldC<K> h; for (std::size_t i = 0; i < K; i++) h.c[i] = e[i]; return h; };
+                    HoldC<K> ha = mk(es[0]), hb = mk(es[1]);
+                    if (three) { HoldC<K> hc = mk(es[2]); return run_multi<false>(sc, ha, hb, &hc, n); }
+                    return run_multi<false>(sc, ha, hb, static_cast<HoldC<K>*>(nullptr), n);
+                }
+            });
+        return "BADCASE";
+    }
     if (w.size() == 5 && w[0] == "re" && w[3].size() == 1)
     {
         Elems e;
